@@ -28,6 +28,12 @@ def handle (α : Type) [Arith α] [Wire α] : List Sexp → Sexp
       | .ok T => app "ok" [T.enc]
       | .error e => CanonErr.enc e
     | _, _ => app "err" [.atom "decode"]
+  | [.atom "flt", tol, a, b] =>
+    -- the tolerance predicate `float_lt` itself (probed at large and small arguments)
+    if !(C13.tolOk tol) then app "err" [.atom "tolerance-mismatch"] else
+    match (decNumS tol : Option α), (decNumS a : Option α), (decNumS b : Option α) with
+    | some tol, some a, some b => app "ok" [.atom (if Tol.flt tol a b then "true" else "false")]
+    | _, _, _ => app "err" [.atom "decode"]
   | [.atom "step", tol, prefer, T] =>
     if !(C13.tolOk tol) then app "err" [.atom "tolerance-mismatch"] else
     match (decNumS tol : Option α), decNats prefer, (Tab.dec T : Option (Tab α)) with
